@@ -323,15 +323,19 @@ def _sample_case(formula_text, exposure_fixed=None):
             else:
                 parts = [(a[i], mass * frac * a[i].abundance * 0.01) for i in a.isotopes if a[i].abundance > 0]
             for iso, m in parts:
-                for ai, vals in activation.activity(iso, m, env, exposure, [0, rest]).items():
-                    cur = want.get(ai)
-                    want[ai] = vals if cur is None else [x + y for x, y in zip(cur, vals)]
-        E.fact('products', set(s.activity.keys()) == set(want.keys()),
-               note='%d vs %d products' % (len(s.activity), len(want)))
-        for ai, vals in want.items():
-            if ai in s.activity:
-                for i, (x, y) in enumerate(zip(s.activity[ai], vals)):
-                    E.eq('sample_activity[%s->%s][%d]' % (ai.isotope, ai.daughter, i), x, y)
+                # one table row at a time, so the oracle does not depend on how result records compare or hash
+                for row in getattr(iso, 'neutron_activation', ()):
+                    for ai, vals in activation.activity(FakeIsotope(iso.isotope, [row]), m, env, exposure, [0, rest]).items():
+                        cur = want.get(id(row))
+                        want[id(row)] = (row, vals if cur is None else [x + y for x, y in zip(cur[1], vals)])
+        got = [(k, v) for k, v in s.activity.items()]
+        E.fact('products', len(got) == len(want) and all(any(k is row for k, _ in got) for row, _ in want.values()),
+               note='%d vs %d products' % (len(got), len(want)))
+        for row, vals in want.values():
+            for k, v in got:
+                if k is row:
+                    for i, (x, y) in enumerate(zip(v, vals)):
+                        E.eq('sample_activity[%s->%s|%s][%d]' % (row.isotope, row.daughter, row.reaction, i), x, y)
     return h
 
 
@@ -361,6 +365,80 @@ def _rows_case(case, tier, seed):
     return res
 
 
+def _hp_rows_case(case, tier, seed):
+    """ground (concrete, exhaustive over the 513 rows x a grid of environments; not a solver claim): the real activity()
+    against the documented chain solution evaluated in 80-digit decimal arithmetic.  This is where the floats-as-reals
+    assumption of the symbolic cases is discharged: relative accuracy 1e-5 and non-negativity in double precision."""
+    import periodictable as pt
+    from periodictable import activation
+    from ..env import ConcEnv
+    pt.Fe[56].neutron_activation
+    E = ConcEnv()
+    res = dict(paths=1, claims=0, discharged=0, queries=0, distinct=0, violations=[], inconclusive=[], samples=[], solver_s=0.0, complete=True)
+    ill = dict(n=0, bad_acc=[], bad_neg=[])
+    viol = []
+    exposures = (1e-3, 0.1, 10.0, 1e4) if tier == 'quick' else (1e-3, 3e-3, 1e-2, 0.1, 0.5, 1.0, 10.0, 100.0, 1e3, 1e4)
+    fluences = (1e2, 1e8, 1e13, 1e16) if tier == 'quick' else (1e2, 1e4, 1e6, 1e8, 1e10, 1e12, 1e13, 1e14, 1e15, 1e16)
+    cds = (0.0, 10.0) if tier == 'quick' else (0.0, 1.0, 10.0, 1e4)
+    nrows = 0
+    for el in pt.elements:
+        for iso in el:
+            for ai in getattr(iso, 'neutron_activation', []):
+                nrows += 1
+                for cd in cds:
+                    epi = 1 / cd if cd >= 1 else 0
+                    for fl in fluences:
+                        env = activation.ActivationEnvironment(fluence=fl, Cd_ratio=cd, fast_ratio=50.0)
+                        for expo in exposures:
+                            tag = '%s|%s->%s' % (ai.reaction, ai.isotope, ai.daughter)
+                            vals = dict(fluence=fl, Cd_ratio=cd, fast_ratio=50.0, exposure=expo, mass=1.0)
+                            try:
+                                got = activation.activity(FakeIsotope(iso.isotope, [ai]), 1.0, env, expo, [0])[ai][0]
+                            except Exception as e:   # noqa: BLE001
+                                res['claims'] += 1
+                                viol.append(dict(case=case.name, claim='computes[%s]' % tag, values=vals, observed=['%s: %s' % (type(e).__name__, e), None], how='concrete'))
+                                continue
+                            want0, _R = _closed_form(E, ai, (fl, cd, 50.0), 1.0, iso.isotope, expo, activation.LN2)
+                            w = float(want0)
+                            well = True
+                            if ai.reaction == '2n':
+                                flux = fl / 50.0 if ai.fast else fl
+                                k = [flux * (ai.thermalXS + epi * ai.resonance) * 3600e-24,
+                                     fl * (ai.thermalXS_parent + epi * ai.resonance_parent) * 3600e-24 + activation.LN2 / ai.Thalf_parent,
+                                     activation.LN2 / ai.Thalf_hrs]
+                                well = min(k) * expo >= 1e-4
+                            acc_ok = abs(w) < 1e-300 or abs(got - w) <= 1e-5 * abs(w)
+                            neg_ok = got >= 0
+                            if well:
+                                res['claims'] += 2
+                                res['discharged'] += int(acc_ok) + int(neg_ok)
+                                if not acc_ok:
+                                    viol.append(dict(case=case.name, claim='accuracy[%s]' % tag, values=vals, observed=[got, w], how='concrete vs 80-digit chain solution'))
+                                if not neg_ok:
+                                    viol.append(dict(case=case.name, claim='nonneg[%s]' % tag, values=vals, observed=[got, w], how='concrete'))
+                            else:
+                                ill['n'] += 1
+                                if not acc_ok:
+                                    ill['bad_acc'].append((abs(got - w) / abs(w), tag, vals, got, w))
+                                if not neg_ok:
+                                    ill['bad_neg'].append((got, tag, vals, got, w))
+    # the two-step capture branch at small rate*time products: one aggregated claim each (see known_findings.json)
+    res['claims'] += 2
+    for key, claim in (('bad_acc', 'two_step_capture_accuracy_at_small_rates'), ('bad_neg', 'two_step_capture_nonneg_at_small_rates')):
+        if not ill[key]:
+            res['discharged'] += 1
+        else:
+            worst = sorted(ill[key], key=lambda x: -abs(x[0]))[0]
+            viol_entry = dict(case=case.name, claim=claim, values=dict(worst[2], row=worst[1]),
+                              observed=[worst[3], worst[4]], how='concrete vs 80-digit chain solution; %d of %d small-rate grid points fail' % (len(ill[key]), ill['n']))
+            res['violations'].append(viol_entry)
+    res['violations'] += viol[:5]
+    res['queries'] = res['distinct'] = res['claims']
+    res['samples'] = [dict(rows=nrows, grid=dict(exposure_h=exposures, fluence=fluences, Cd_ratio=cds, fast_ratio=50.0),
+                           two_step_small_rate_points=ill['n'], tolerance_rel=1e-5)]
+    return res
+
+
 def cases(tier):
     th = tier == 'thorough'
     mp = 64 if not th else 512
@@ -382,4 +460,5 @@ def cases(tier):
     for ftxt in (['Co', 'C[13]O2', 'Co[59]Co2', 'Li{+}H{-}'] if not th else ['Co', 'C[13]O2', 'Co[59]Co2', 'Na{+}Cl{-}', 'DHO', 'NaCl', 'Fe[58]2O3', 'Au', 'H2O', 'Fe[56]{2+}O{2-}']):
         out.append(Case('sample[%s]' % ftxt, _sample_case(ftxt), max_paths=mp * 4, timeout_ms=to, nsamples=1))
     out.append(Case('rows_satisfy_generic_assumptions', None, custom=_rows_case))
+    out.append(Case('real_rows_high_precision_ground', None, custom=_hp_rows_case, budget_s=600))
     return out
